@@ -21,20 +21,35 @@ Types(d) == IF d = 0 THEN {TInt, TEnum}
             ELSE LET S == Types(d - 1) IN
                  {TInt, TEnum} \cup {TC("list", t) : t \in S} \cup {TC("dict", t) : t \in S} \cup {TTup(t) : t \in S}
                  \cup {TC("set", t) : t \in {x \in S : Hashable(x)}} \cup {TC("opt", t) : t \in {x \in S : x.k \in {"list", "tuple"}}}
+\* round 4: Unions other than Optional whose members are containers (a failing member leaves its partial conversion behind),
+\* alone, below a tuple (the caller's list is reached through the shared tuple), and - thorough - as element type
+TStr == [k |-> "str", a |-> << >>]
+TU(t1, t2) == [k |-> "union", a |-> <<t1, t2>>]
+U1 == TU(TC("list", TInt), TC("list", TStr))
+U2 == TU(TC("list", TStr), TC("list", TInt))
+U3 == TU(TInt, TC("list", TInt))
+U4 == TU(TC("list", TInt), TC("dict", TInt))
+UBase == {U1, U2, U3, U4}
+UTypes == IF Depth < 3 THEN {TTup(U1), TTup(U3)}
+          ELSE UBase \cup {TTup(u) : u \in UBase} \cup {TC("list", u) : u \in UBase} \cup {TC("dict", u) : u \in UBase} \cup {TTup(TC("list", u)) : u \in UBase}
 Flavours == {"adapted", "raw", "bad"}
+\* round 4: parse_args_ns = parse_args([], namespace=<the argument>) (thorough instance)
 Ops == {"parse_object", "validate", "dump", "instantiate_classes", "merge_config", "strip_unknown", "get_defaults", "save", "format_help", "parse_args"}
+       \cup (IF Depth < 3 THEN {} ELSE {"parse_args_ns"})
 OnDefaults == {"get_defaults", "format_help", "parse_args"}      \* for these the case's values are the parser's DECLARED DEFAULTS
 
 \* canonical value of type T: -> [h, c, n];  j numbers the leaves so that they differ
 LeafVal(T, fl, j) ==
   IF fl = "bad" THEN Sc("x", "str")
   ELSE IF T.k = "int" THEN Sc(ToString(j), IF fl = "raw" THEN "numstr" ELSE "int")
+  ELSE IF T.k = "str" THEN (IF fl = "raw" THEN Sc(ToString(j), "numstr") ELSE Sc("s" \o ToString(j), "str"))   \* raw: a text of digits - a str, and convertible to int
   ELSE Sc(IF j % 2 = 1 THEN "RED" ELSE "GREEN", IF fl = "raw" THEN "enumstr" ELSE "enum")
 First(fl) == IF fl = "bad" THEN "raw" ELSE fl          \* the element before a bad one is convertible: a partial write becomes visible
 RECURSIVE Build(_, _, _, _, _)
 Build(T, fl, h, n, j) ==
   IF T.k \in LeafTypes THEN [h |-> h, c |-> LeafVal(T, fl, j), n |-> n]
   ELSE IF T.k = "opt" THEN Build(T.a[1], fl, h, n, j)
+  ELSE IF T.k = "union" THEN Build(T.a[2], fl, h, n, j)        \* the canonical value of the LAST member: the first one is tried on it
   ELSE IF T.k = "set" THEN LET e == Build(T.a[1], fl, h, n + 1, j) IN
                            [h |-> Put(e.h, Id(n), Cell("set", <<<<"0", e.c>>>>)), c |-> Rf(Id(n)), n |-> e.n]
   ELSE LET T1 == IF T.k = "tuple" THEN T.a[1] ELSE T.a[1]
@@ -70,7 +85,7 @@ Case(T, fl, op, root, pl) ==
       h |-> Put(hg, Id(ng), Cell(root, top)), arg |-> Rf(Id(ng)), n |-> ng + 1,
       keys |-> <<[p |-> pv, T |-> T, d |-> 1], [p |-> pw, T |-> TW, d |-> 2]>>]
 
-Cases == {Case(T, fl, op, root, pl) : T \in Types(Depth), fl \in Flavours, op \in Ops, root \in {"dict", "ns"}, pl \in {"top", "grp", "sub"}}
+Cases == {Case(T, fl, op, root, pl) : T \in Types(Depth) \cup UTypes, fl \in Flavours, op \in Ops, root \in {"dict", "ns"}, pl \in {"top", "grp", "sub"}}
 \* only parse_object takes a dict; a Namespace is what every other operation is given; the declared defaults of a
 \* sub-command parser are exercised by the random histories, not here (the copying operations neither)
 Legal(c) == (c.root = "ns" \/ c.op = "parse_object")
@@ -84,7 +99,7 @@ Spec == Init /\ [][Next]_c
 OnD   == c.op \in OnDefaults
 Roots == IF OnD THEN [defaults |-> c.arg] ELSE [arg |-> c.arg]
 \* the call as data for AlgCall: a parse_args([]) that returns validates every default
-X     == [op |-> c.op, h |-> c.h, roots |-> Roots, arg |-> IF OnD THEN "" ELSE "arg", keys |-> IF OnD THEN << >> ELSE c.keys,
+X     == [op |-> IF c.op = "parse_args_ns" THEN "parse_args" ELSE c.op, h |-> c.h, roots |-> Roots, arg |-> IF OnD THEN "" ELSE "arg", keys |-> IF OnD THEN << >> ELSE c.keys,
           dkeys |-> IF OnD THEN c.keys ELSE << >>, dactive |-> IF OnD THEN c.keys ELSE << >>, dcf |-> FALSE, sdef |-> FALSE, pser |-> FALSE, returned |-> TRUE]
 Run   == AlgCall(X, c.n)
 Holds == Frame(c.h, Roots, Run.h, Roots)
@@ -92,13 +107,13 @@ Holds == Frame(c.h, Roots, Run.h, Roots)
 \* the operations that work on copies never reach the caller's objects
 CopyingOpsFrame == c.op \in {"merge_config", "strip_unknown", "get_defaults", "format_help"} => (Holds /\ Run.ok)
 \* validate / dump / instantiate_classes reach the caller's objects only below a tuple (the clone shares tuples)
-OnlyBelowTuple == (c.op \in {"validate", "dump", "save", "instantiate_classes", "parse_args"} \/ (CopyOnEntry /\ c.op = "parse_object"))
+OnlyBelowTuple == (c.op \in {"validate", "dump", "save", "instantiate_classes", "parse_args", "parse_args_ns"} \/ (CopyOnEntry /\ c.op = "parse_object"))
                   => Touched(c.h, Run.h) \subseteq BelowTuple(c.h)
 \* ... and on a configuration whose values are all adapted already (what an earlier parse returned) validate and
 \* instantiate_classes change no VALUE; the only thing they can do is replace a set that sits in a list/dict below a
 \* tuple by an equal new set (found by TLC at Depth 3: Tuple[int, List[Set[int]]]; confirmed on the real code)
 AdaptedIsSafe ==
-  ((c.op \in {"validate", "instantiate_classes", "parse_args"} \/ (CopyOnEntry /\ c.op = "parse_object")) /\ c.fl = "adapted") =>
+  ((c.op \in {"validate", "instantiate_classes", "parse_args", "parse_args_ns"} \/ (CopyOnEntry /\ c.op = "parse_object")) /\ c.fl = "adapted") =>
      /\ ValueFrame(c.h, Roots, Run.h, Roots)
      /\ Holds \/ \E id \in BelowTuple(c.h) : c.h[id].t = "set"
 \* dump is NOT value-safe even then: serialisation writes the serialised form into a list/dict below a tuple of the
